@@ -3,6 +3,7 @@ Programs of accesses expanded according to the classification produce, under eve
 well-formed (`WF`) — hence data-race free by `drf_of_wf`. Core Lean only.
 -/
 import Pandora.Proofs.C11
+import Pandora.Model.C11Table
 
 namespace Pandora.Proofs.C11
 open Pandora.Model.C11
@@ -163,5 +164,57 @@ theorem initCfg_ok (cls : Nat → Class) (progs : List (List Op))
     simp [hp] at hget
     subst hget
     exact Shape.boundary ops (h t ops hp)
+
+/-! ### lock-facts tables -/
+
+open Pandora.Go in
+theorem rowOp_ok (tbl : List C11LockRow) (h : c11TableOk tbl = true) (r : C11LockRow) (hr : r ∈ tbl) (t : Nat) :
+    opOk (clsT tbl) t (rowOp r) := by
+  have hrow : c11RowOk tbl r = true := (List.all_eq_true.mp h) r hr
+  by_cases hf : c11ObjFrozen tbl r.oid = true
+  · simp only [c11RowOk, hf, if_true, Bool.and_eq_true, Bool.not_eq_true'] at hrow
+    simp [opOk, clsT, rowOp, hf, hrow.2]
+  · simp [opOk, clsT, rowOp, hf]
+
+open Pandora.Go in
+theorem siteEvents_eq (tbl : List C11LockRow) (h : c11TableOk tbl = true) (r : C11LockRow) (hr : r ∈ tbl) (t : Nat) :
+    siteEvents tbl t r = expand (clsT tbl) t (rowOp r) := by
+  have hrow : c11RowOk tbl r = true := (List.all_eq_true.mp h) r hr
+  simp only [c11RowOk, Bool.and_eq_true] at hrow
+  simp [siteEvents, hrow.1]
+
+theorem flatMap_congr' {α β} (f g : α → List β) : ∀ (l : List α), (∀ a ∈ l, f a = g a) → l.flatMap f = l.flatMap g := by
+  intro l
+  induction l with
+  | nil => intro _; rfl
+  | cons x xs ih =>
+    intro h
+    simp only [List.flatMap_cons]
+    rw [h x (List.mem_cons_self), ih (fun a ha => h a (List.mem_cons_of_mem _ ha))]
+
+/-- two bare writes of different threads to one object, nothing else: not ordered by happens-before -/
+theorem not_hb_two (t1 t2 o : Nat) (w1 w2 : Bool) (v1 v2 : Nat) (hne : t1 ≠ t2) :
+    ∀ i j, ¬ HB [Ev.acc t1 o w1 v1, Ev.acc t2 o w2 v2] i j := by
+  intro i j h
+  induction h with
+  | po hij hi hj hth =>
+    rename_i i j a b
+    have hj1 : j = 1 := by
+      match j, hj with
+      | 0, _ => omega
+      | 1, _ => rfl
+      | n + 2, hj => simp at hj
+    have hi0 : i = 0 := by omega
+    subst hj1; subst hi0
+    simp at hi hj
+    subst hi; subst hj
+    exact hne hth
+  | sw hij hi hj =>
+    rename_i i j t t' l
+    match i, hi with
+    | 0, hi => simp at hi
+    | 1, hi => simp at hi
+    | n + 2, hi => simp at hi
+  | trans _ _ ih1 _ => exact ih1
 
 end Pandora.Proofs.C11
